@@ -41,7 +41,7 @@ Definition ffun (tab : ftab) (l : list X) : nat := ftab_get tab (map x_id l).
 
 (* the custom functions the harness passes to `apply` *)
 Definition F (fid : nat) (vals : list ccell) : rcellc :=
-  match fid with
+  match Nat.modulo fid 3 with                    (* number = 3 * (apply entry index) + behaviour *)
   | 0 => RRaw vals                               (* lambda vals: tuple(vals) *)
   | 1 => RInt (Z.of_nat (List.length vals))      (* len *)
   | _ => RNone                                   (* lambda vals: None *)
